@@ -1222,7 +1222,9 @@ func (fc *FuncCtx) enterLoop(fr *Frame, li *loopInfo, st *State) *State {
 	invs := fc.loopInvariants(fr, li, st, mi, cells)
 	for _, iv := range invs {
 		t := iv.at(st)
+		fc.curTags = iv.tags
 		fc.addSplit(fr, st, "inv-entry", loopName+":"+iv.text, t, pos, "loop invariant holds on entry")
+		fc.curTags = nil
 	}
 	// 2. havoc
 	h := st.clone()
@@ -1292,6 +1294,7 @@ type invariant struct {
 	text string
 	at   func(st *State) *Term
 	auto bool
+	tags []string // property tags: the invariant is proved and assumed only in runs for these properties
 }
 
 func (fc *FuncCtx) bindLoopVars(fr *Frame, li *loopInfo, st *State, env *Env) {
@@ -1338,13 +1341,20 @@ func (fc *FuncCtx) bindLoopVars(fr *Frame, li *loopInfo, st *State, env *Env) {
 	}
 }
 
+// activeProp: the property of this run (-prop); "" = all
+var activeProp string
+
 func (fc *FuncCtx) loopInvariants(fr *Frame, li *loopInfo, entry *State, mi *modInfo, cells map[*ssa.Alloc]bool) []invariant {
 	var out []invariant
 	c := fr.contract
 	if li.lc != nil {
 		for _, cl := range li.lc.Invariants {
 			cl := cl
-			out = append(out, invariant{text: cl.Text, at: func(st *State) *Term {
+			if activeProp != "" && len(cl.Tags) > 0 && !hasStr(cl.Tags, activeProp) {
+				// an invariant restricted to other properties is neither proved nor assumed in this run
+				continue
+			}
+			out = append(out, invariant{text: cl.Text, tags: cl.Tags, at: func(st *State) *Term {
 				env := fc.envFor(fr, st, nil, true)
 				fc.bindLoopVars(fr, li, st, env)
 				env.entrySt = entry
@@ -1428,7 +1438,9 @@ func (fc *FuncCtx) backEdge(fr *Frame, li *loopInfo, st *State, pos token.Pos) {
 	cells, mi := fc.modOfBlocks(fr, li.blocks)
 	invs := fc.loopInvariants(fr, li, li.entry, mi, cells)
 	for _, iv := range invs {
+		fc.curTags = iv.tags
 		fc.addSplit(fr, st, "inv-pres", loopName+":"+iv.text, iv.at(st), pos, "loop invariant is preserved by the body")
+		fc.curTags = nil
 	}
 	if li.variant != nil {
 		env := fc.envFor(fr, st, nil, true)
